@@ -15,6 +15,7 @@ as `m e`, value `m·2^e`):
 Without the `|| …` part the model's own values are printed (for replays).
 -/
 import SharkVerif.Model.Trainers
+import SharkVerif.Model.TrainersKernel
 open SharkVerif.Trainers
 
 /-- a value printed by the harness -/
@@ -457,7 +458,8 @@ def opLda (weighted : Bool) (sh : Int) (a : List Int) (o : Option Obs) : String 
       let wbs : WCData := cut t.sizes rowsW
       let cbs : CData := cut t.sizes (rowsW.map fun p => (p.1, p.2.1))
       let classes := (rowsW.foldl (fun m p => max m p.2.1) 0) + 1
-      let emptyClass := (List.range classes).any fun c => rowsW.all fun p => p.2.1 ≠ c
+      -- a class without examples, or (weighted overload) whose examples all have weight 0
+      let emptyClass := (List.range classes).any fun c => (rowsW.all fun p => p.2.1 ≠ c) ∨ (weighted ∧ classWeight wbs c = 0)
       let expectExc := emptyClass ∨ (¬ weighted ∧ t.n ≤ classes)
       let mu := (tab2 classes d fun c j => if weighted then wldaMean wbs c j else ldaMean cbs c j).at2
       let cov := (tab2 d d fun i j => if weighted then wldaCov wbs classes reg i j else ldaCov cbs classes reg i j).at2
@@ -476,6 +478,8 @@ def opLda (weighted : Bool) (sh : Int) (a : List Int) (o : Option Obs) : String 
           if t.sizes.length > 1 then v := v.tag "multi-batch"
           let rk := rank d cov
           v := v.tag (if rk = d then "regular-cov" else "singular-cov")
+          if classes = 1 then v := v.tag "single-class"
+          if rowsW.any (fun p => p.2.2 = 0) then v := v.tag "zero-weight"
           if gZ.any (fun x => ¬ x.isFin) ∨ gb.any (fun x => ¬ x.isFin) then return "FAIL lda-nonfinite model"
           if rk = d then
             let Z := (tab2 classes d fun c j => gZ[c * d + j]!.get).at2
@@ -534,6 +538,167 @@ def opFisher (sh : Int) (a : List Int) (o : Option Obs) : String :=
               let lhs := -(rsum d fun j => gW[i * d + j]!.get * gm[j]!.get)
               v := v.spec s!"offset[{i}] = -W*mean" gb[i]!.get lhs (rsum d fun j => rabs (gW[i * d + j]!.get * gm[j]!.get))
           else v := v.fail "fisher-nonfinite model"
+          -- the matrix `meanAndScatter` hands to the eigen-solver: `solve(Sw, Sb, symm_pos_def(), left)`, i.e. Sw·M = Sb with the
+          -- model's `withinScatterMoments` / `betweenScatter` (theorem fisher_scatter_spec through C02's Cholesky solve)
+          let gS := o.group "scatter"
+          if gS.size = d * d ∧ gS.all (·.isFin) then
+            let Sw := (tab2 d d (withinScatterMoments cbs classes)).at2
+            let Sb := (tab2 d d (betweenScatter cbs classes)).at2
+            let M := (tab2 d d fun i j => gS[i * d + j]!.get).at2
+            let mmax := gS.foldl (fun m x => max m (rabs x.get)) 0
+            let okSolve := (List.range d).all fun i => (List.range d).all fun j =>
+              let scale := (rsum d fun l => rabs (Sw i l * M l j)) + rabs (Sb i j)
+              rabs ((rsum d fun l => Sw i l * M l j) - Sb i j) ≤ (1 / 10000000) * (1 + scale)
+            let symm := (List.range d).all fun i => (List.range d).all fun j => rabs (M i j - M j i) ≤ tolRel * (1 + mmax)
+            if okSolve then v := { v with rel := v.rel + d * d }
+            else if symm then v := v.tag "symmetrised-scatter"        -- the repaired trainer (F-C15-7) decomposes L^-1 Sb L^-T
+            else v := v.fail "fisher-scatter: Sw * scatter = Sb violated by the matrix handed to the eigen-solver"
+            if okSolve ∧ ¬ symm then v := v.tag "scatter-not-symmetric"
+          else v := v.fail "fisher-scatter missing or non-finite"
+          return v.line
+  | _ => "bad-op"
+
+/-! ### kernel trainers (harness/c15d.cpp) -/
+
+def kernelOf (kern : Int) (d : Nat) : Kernel := if kern = 0 then linearKernel d else polyKernel d
+
+def excOr (o : Obs) (what : String) : String :=
+  if o.status = "exc" then "ok exact=0 tol=0 rel=0 tags=exception" else s!"FAIL {what}; expected an exception, got {o.status}"
+
+/-- `regnet kern bNum bShift k | table+labels` -/
+def opRegNet (sh : Int) (a : List Int) (o : Option Obs) : String :=
+  match a with
+  | kern :: bNum :: bShift :: k :: rest =>
+    if kern < 0 ∨ kern > 1 ∨ bNum ≤ 0 ∨ bShift < 0 ∨ k ≤ 0 then "bad-op" else
+    let k := k.toNat
+    match parseTable rest k sh with
+    | none => "bad-op"
+    | some t =>
+      let bs := t.labeled
+      let n := t.n
+      let noise : Rat := bNum * pow2 (-bShift)
+      let ker := kernelOf kern t.d
+      let Mt := tab2 n n (regnetM ker bs noise)
+      let M := Mt.at2
+      let Rt := tab2 n k (regnetRhs bs)
+      let R := Rt.at2
+      match o with
+      | none => "model offset " ++ " ".intercalate ((List.range k).map fun c => showRat (regnetMean bs c))
+      | some o =>
+        if o.status ≠ "ok" then "FAIL status " ++ o.status else
+        let gA := o.group "alpha"; let gb := o.group "b"; let gs := o.group "semi"
+        if gA.size ≠ n * k ∨ gb.size ≠ k ∨ gs.size ≠ 1 then "FAIL shape" else Id.run do
+          let mut v : Verdict := {}
+          if t.sizes.length > 1 then v := v.tag "multi-batch"
+          if ¬ o.inexact then v := v.tag "exact-run"
+          if gA.any (fun x => ¬ x.isFin) ∨ gb.any (fun x => ¬ x.isFin) then return "FAIL regnet-nonfinite model"
+          -- which solver: `noiseVariance()/max(diag(M)) < 1e-5` (semi-definite) or Cholesky
+          let maxDiag := (List.range n).foldl (fun m i => max m (M i i)) 0
+          let semi : Bool := noise / maxDiag < 1 / 100000
+          v := v.tag (if semi then "semi-definite-solver" else "cholesky-solver")
+          v := v.value false "solver branch" (if semi then 1 else 0) gs[0]!
+          for c in [0:k] do
+            v := v.value o.inexact s!"offset[{c}] = label mean" (regnetMean bs c) gb[c]!
+          let got := (tab2 n k fun i c => gA[i * k + c]!.get).at2
+          -- specification of the solve on the returned coefficients: (K + σ²I)·alpha = L − mean
+          for i in [0:n] do
+            for c in [0:k] do
+              let scale := (rsum n fun j => rabs (M i j * got j c)) + rabs (R i c)
+              v := v.spec s!"(K+noise*I)*alpha[{i},{c}]" (matMul n M got i c) (R i c) scale
+          -- M is positive definite, the solution unique: compare with the model's own solve
+          let betat := tab2 n k (gaussSolve n k M R)
+          let beta := betat.at2
+          let mx := (List.range n).foldl (fun m j => (List.range k).foldl (fun m c => max m (rabs (beta j c))) m) 0
+          for i in [0:n] do
+            for c in [0:k] do
+              if matMul n M beta i c ≠ R i c then v := v.fail s!"gaussSolve violates M*alpha = rhs at ({i},{c})"
+              -- forward comparison only in the Cholesky branch: the other branch is taken exactly when the system is
+              -- ill-conditioned (noise/max diag < 1e-5), there the residual and the gradient above are what is checked
+              if semi then v := v.tag "ill-conditioned-forward-comparison-skipped"
+              else if rabs (got i c - beta i c) ≤ (1 / 1000000) * (1 + mx) then v := { v with tol := v.tol + 1 }
+              else v := v.fail s!"alpha[{i},{c}]: model {showRat (beta i c)} impl {showRat (got i c)}"
+          -- the gradient of the regularised risk at the returned coefficients (model `regnetGradient`)
+          for c in [0:k] do
+            let al := fun j => got j c
+            for i in [0:n] do
+              let g := regnetGradient ker bs noise c al gb[c]!.get i
+              let scale := rsum n fun j => rabs (M i j) * ((rsum n fun l => rabs (M j l * got l c)) + rabs (R j c))
+              v := v.spec s!"gradient[{i},{c}]" g 0 scale
+          return v.line
+  | _ => "bad-op"
+
+/-- `kmean kern weighted | table+class[+weight]` -/
+def opKMean (sh : Int) (a : List Int) (o : Option Obs) : String :=
+  match a with
+  | kern :: weighted :: rest =>
+    if kern < 0 ∨ kern > 1 ∨ weighted < 0 ∨ weighted > 1 then "bad-op" else
+    match parseTable rest (if weighted = 1 then 2 else 1) sh with
+    | none => "bad-op"
+    | some t =>
+      let d := t.d
+      let n := t.n
+      let rowsW : List (Vec × Nat × Rat) := t.rows.map fun r =>
+        ((r.take d).map fun (v : Int) => (v : Rat) * t.scale, (r.getD d 0).toNat, if weighted = 1 then ((r.getD (d + 1) 1 : Int) : Rat) else 1)
+      let wbs : WCData := cut t.sizes rowsW
+      let classes := (rowsW.foldl (fun m p => max m p.2.1) 0) + 1
+      let ker := kernelOf kern d
+      let emptyClass := (List.range classes).any fun c => classWeight wbs c = 0
+      match o with
+      | none => s!"model classes {classes} offsets " ++ " ".intercalate ((List.range classes).map fun c => showRat (kmOffset ker wbs c))
+      | some o =>
+        if emptyClass then excOr o "a class has total weight 0" else
+        if o.status ≠ "ok" then "FAIL status " ++ o.status else
+        let gA := o.group "alpha"; let gb := o.group "b"
+        let cols := if classes = 2 then 1 else classes
+        if gA.size ≠ n * cols ∨ gb.size ≠ cols then "FAIL shape" else Id.run do
+          let mut v : Verdict := {}
+          if t.sizes.length > 1 then v := v.tag "multi-batch"
+          if ¬ o.inexact then v := v.tag "exact-run"
+          v := v.tag (if classes = 2 then "binary" else if classes = 1 then "single-class" else "multi-class")
+          if rowsW.any (fun p => p.2.2 = 0) then v := v.tag "zero-weight"
+          let offs := (List.range classes).toArray.map fun c => kmOffset ker wbs c
+          let rowsA := rowsW.toArray
+          if classes = 2 then
+            for i in [0:n] do
+              v := v.value o.inexact s!"alpha[{i}]" (kmCoef wbs 1 rowsA[i]! - kmCoef wbs 0 rowsA[i]!) gA[i]!
+            v := v.value o.inexact "offset" ((offs[0]! - offs[1]!) / 2) gb[0]!
+          else
+            for i in [0:n] do
+              for c in [0:classes] do
+                v := v.value o.inexact s!"alpha[{i},{c}]" (kmCoef wbs c rowsA[i]!) gA[i * classes + c]!
+            for c in [0:classes] do
+              v := v.value o.inexact s!"offset[{c}]" (-(offs[c]!) / 2) gb[c]!
+          return v.line
+  | _ => "bad-op"
+
+/-- `nkuv kern | table` -/
+def opNkuv (sh : Int) (a : List Int) (o : Option Obs) : String :=
+  match a with
+  | kern :: rest =>
+    if kern < 0 ∨ kern > 1 then "bad-op" else
+    match parseTable rest 0 sh with
+    | none => "bad-op"
+    | some t =>
+      let bs := t.inputs
+      let ker := kernelOf kern t.d
+      let tm := nkuvVariance ker bs
+      match o with
+      | none => s!"model trace {showRat (nkuvTrace ker bs)} sum {showRat (nkuvMean ker bs)} variance {showRat tm}"
+      | some o =>
+        if t.n < 2 then excOr o "fewer than two points" else
+        if tm ≤ 0 then
+          (if o.status = "exc" then "ok exact=0 tol=0 rel=0 tags=exception,zero-feature-variance"
+           else s!"FAIL nkuv-zero-variance: the data have variance {showRat tm} in feature space (all points coincide there), the factor 1/variance does not exist; expected an exception, got {o.status}")
+        else
+        if o.status ≠ "ok" then "FAIL status " ++ o.status else
+        let gf := o.group "factor"; let gt := o.group "trace"; let gm := o.group "mean"
+        if gf.size ≠ 1 ∨ gt.size ≠ 1 ∨ gm.size ≠ 1 then "FAIL shape" else Id.run do
+          let mut v : Verdict := {}
+          if t.sizes.length > 1 then v := v.tag "multi-batch"
+          if ¬ o.inexact then v := v.tag "exact-run"
+          v := v.value o.inexact "trace" (nkuvTrace ker bs) gt[0]!
+          v := v.value o.inexact "sum of kernel matrix" (nkuvMean ker bs) gm[0]!
+          v := v.value o.inexact "factor" (nkuvFactor ker bs) gf[0]!
           return v.line
   | _ => "bad-op"
 
@@ -551,6 +716,9 @@ def dispatch (op : String) (sh : Int) (a : List Int) (o : Option Obs) : String :
   | "lda" => opLda false sh a o
   | "wlda" => opLda true sh a o
   | "fisher" => opFisher sh a o
+  | "regnet" => opRegNet sh a o
+  | "kmean" => opKMean sh a o
+  | "nkuv" => opNkuv sh a o
   | _ => "bad-op"
 
 def toks (s : String) : List String := (s.trimAscii.toString.splitOn " ").filter (· ≠ "")
